@@ -99,7 +99,7 @@ struct Runner {
 
     explicit Runner(Ctx &ctx) : ctx(ctx) { }
 
-    void newClient(const QJsonObject &cfg)
+    void newClient(const QJsonObject &cfg, bool keepAlive = false)
     {
         c.reset(new TestClient(TestClient::NoExtensions, USER + "@" + DOMAIN_ + "/qxv"));
         sig.clear();
@@ -119,7 +119,8 @@ struct Runner {
         conf.setPassword(PASSWORD);
         conf.setAutoReconnectionEnabled(false);
         conf.setIgnoreSslErrors(true);
-        conf.setKeepAliveInterval(0);
+        // keep-alive pings only in behaviours that let time pass (step "Stall"): 1 s interval
+        conf.setKeepAliveInterval(keepAlive ? 1 : 0);
         conf.setDisabledSaslMechanisms({});  // PLAIN allowed: the password itself travels, so leaks are visible
         auto tls = cfg["tls"].toString();
         conf.setStreamSecurityMode(tls == "Required" ? QXmppConfiguration::TLSRequired : tls == "Enabled" ? QXmppConfiguration::TLSEnabled : QXmppConfiguration::TLSDisabled);
@@ -379,6 +380,18 @@ struct Runner {
             hung = lastHang;
             return true;
         }
+        if (k == "Stall") {
+            // the remote end goes silent for longer than the keep-alive interval (1 s in these
+            // behaviours); whatever the client writes meanwhile is reported with this step
+            if (!clientSocketUp()) {
+                return false;
+            }
+            qxvSpin([] { return false; }, 1300);
+            qxvDrain();
+            emitStep(ev);
+            hung = lastHang;
+            return true;
+        }
         if (k == "Cut") {
             if (!clientSocketUp()) {
                 return false;
@@ -524,7 +537,11 @@ struct Runner {
     void run(const QString &caseId, const QJsonObject &beh)
     {
         auto cfg = beh["cfg"].toObject();
-        newClient(cfg);
+        bool stalls = false;
+        for (const auto &sv : beh["steps"].toArray()) {
+            stalls = stalls || sv.toObject()["k"].toString() == "Stall";
+        }
+        newClient(cfg, stalls);
         ctx.reset(caseId, { { "cfg", cfg }, { "conn0", peer.connections } });
         const auto steps = beh["steps"].toArray();
         // The honest reconnection appended to the behaviour (see lib/props/_stream.py) lies between
